@@ -5,6 +5,7 @@ package main
 import (
 	"go/token"
 	"go/types"
+	"strings"
 
 	"golang.org/x/tools/go/ssa"
 )
@@ -79,6 +80,37 @@ func checkC14(c *Check) {
 		c.Cond(ok, p.FuncKey(nw)+":maps-default-return-handler", p.FuncPos(nw), "f.Map(defaultReturnHandler())", "the application no longer registers the default return handler")
 	} else {
 		c.Anchor("flamego.NewWithLogger")
+	}
+
+	// the framework itself maps a ReturnHandler nowhere in the request phase: a per-request
+	// mapping shadows the one the application registered (own values are consulted before the parent's)
+	{
+		isRH := func(v ssa.Value) bool {
+			if mi, ok := v.(*ssa.MakeInterface); ok {
+				v = mi.X
+			}
+			return namedName(v.Type()) == "ReturnHandler"
+		}
+		n := 0
+		for _, fn := range p.REQList() {
+			for _, ci := range callsIn(fn, func(nm string, cm *ssa.CallCommon) bool {
+				m := nm
+				if cm.IsInvoke() {
+					m = cm.Method.Name()
+				}
+				return strings.HasSuffix(m, "Map") || strings.HasSuffix(m, "MapTo") || strings.HasSuffix(m, ").Set") || m == "Set"
+			}) {
+				for _, a := range callArgs(ci.Common()) {
+					if derivesFrom(a, isRH, nil) {
+						n++
+						c.Bad(p.FuncKey(fn)+":maps-return-handler-per-request", p.Pos(ci.Pos()), "a ReturnHandler is mapped into the per-request injector by the framework itself: it shadows the handler registered on the application, which no longer replaces the table")
+					}
+				}
+			}
+		}
+		if n == 0 {
+			c.OK("REQ:no-per-request-return-handler", "request phase", "no request-phase function maps a ReturnHandler", 1)
+		}
 	}
 
 	// ---- R2/R4 table shape
@@ -319,9 +351,16 @@ func checkC14(c *Check) {
 	c.Share("C13", []string{"R1", "R2", "R6"}, 8)
 
 	// ---- R3 fast path equals reflective path
-	c.Rule("R3", "E6 (shared with C04.R4)", "the built-in fast path for func() (int, string) returns [ValueOf(r0), ValueOf(r1)] in declaration order", 1)
-	if t := p.Named("flamego", "teapotInvoker"); t != nil {
-		if m := p.Meth("flamego", "teapotInvoker", "Invoke"); m != nil {
+	c.Rule("R3", "E6 (shared with C04.R4)", "every built-in fast invoker returns [ValueOf(r0), ValueOf(r1), …] of its function's results in declaration order on every path, whatever their value: a fast path that drops or reshapes a result (e.g. nothing for \"\") bypasses the registered return handler", 1)
+	if fi := p.Named("inject", "FastInvoker"); fi != nil {
+		seenTeapot := false
+		for _, m := range p.Implementations(fi.Underlying().(*types.Interface), "Invoke") {
+			if m.Pkg != p.SSA["flamego"] {
+				continue
+			}
+			if strings.Contains(p.FuncKey(m), "teapotInvoker") {
+				seenTeapot = true
+			}
 			sub := NewCheck(p, "C14", c.Tier, c.Seed)
 			sub.Rule("R3", "", "", 0)
 			checkFastInvoker(sub, m)
@@ -333,10 +372,13 @@ func checkC14(c *Check) {
 				}
 			}
 			if !bad {
-				c.OK(p.FuncKey(m)+":results", p.FuncPos(m), "fast path returns (int, string) in order", 1)
+				c.OK(p.FuncKey(m)+":results", p.FuncPos(m), "fast path returns its results in order", 1)
 			}
 		}
+		if !seenTeapot {
+			c.Anchor("flamego.teapotInvoker")
+		}
 	} else {
-		c.Anchor("flamego.teapotInvoker")
+		c.Anchor("inject.FastInvoker")
 	}
 }
